@@ -515,6 +515,7 @@ class Interp:
         self.mu0 = mk("num", "Var", "MU0")
         self.arg_obligations = []
         self.envs = None
+        self.inline_modular = False     # the harness validation executes modular callees inline
 
     def module(self, dotted):
         rel = dotted.replace(".", "/") + ".py"
@@ -1035,7 +1036,7 @@ class Interp:
             kwargs[k.arg] = self.expr(k.value, env, mod)
         if isinstance(f, FuncRef):
             key = (f.module.name, f.node.name)
-            if key in MODULAR and len(self.stack) > 1:
+            if key in MODULAR and len(self.stack) > 1 and not self.inline_modular:
                 return self.call_modular(f, key, args, kwargs, e)
             return self.call_function(f, args, kwargs, ast.unparse(e))
         if isinstance(f, Opaque):
